@@ -162,12 +162,13 @@ P2_FinalOutputObserved(hh, alive, mode) ==
 P3_BoundedAttempts(hh, c) == hh.nAfter <= c.retries0 + 1 /\ ~hh.late
 P3_StopsForAReason(hh, alive, rt) ==
     (~alive /\ ~hh.ext /\ ~hh.fired) => (hh.pdone /\ (hh.succAfter \/ rt = 0))
-(* bounded time: the running execution, then at most retries0+1 deciding attempts, one more round for an   *)
-(* attempt that straddles the notification, each of them a wait of at most one (poll-rounded) repeat         *)
-(* interval plus an execution; with a kill delay: the delay and the second the killed task takes to die.     *)
-(* (After the notification the code polls every 5 s whatever the interval; the bound does not rely on it.)   *)
+(* bounded time.  The protocol needs: the running execution, then at most retries0+1 deciding attempts, one  *)
+(* more round for an attempt that straddles the notification, each a wait of at most one (poll-rounded)      *)
+(* repeat interval plus an execution.  The property only says "bounded", so the invariant allows TWICE that: *)
+(* it is meant to catch an engine that does not stop, not one that polls at another pace.  With a kill delay *)
+(* the engine has to stop when the delay expires (+ the second a killed task takes to die).                  *)
 CycleWait(c) == LET w == PollTime * ((c.R + PollTime - 1) \div PollTime) IN IF w < PollTime THEN PollTime ELSE w
-StopBound(c) == LET byRetries == c.maxd + (c.retries0 + 2) * (CycleWait(c) + c.maxd) + CycleWait(c)
+StopBound(c) == LET byRetries == 2 * (c.maxd + (c.retries0 + 2) * (CycleWait(c) + c.maxd) + CycleWait(c))
                 IN IF c.die > 0 THEN Min2(byRetries, c.die + 2) ELSE byRetries
 P3_StopsInTime(hh, alive, c, t) == (hh.pdone /\ alive) => t <= hh.tN + StopBound(c)
 
